@@ -133,6 +133,19 @@ pub fn replay(case: &Value) -> Vec<Obs> {
     }
     if gate_pending { hooks::release_callback_and_wait(); }
     hooks::gate_timer_callback(false);
+    // NoLateFire, observed from outside: a query that reported within the limit leaves no timer behind.  A query built
+    // now and searched only after the limit of the LAST query has passed (nothing is built or started in between, so
+    // nothing clears the flag) must still find everything.
+    if bad.is_none() && !cbs.iter().any(|(t, _, _)| *t == nq) {
+        let query = make_query(vec![atom("fast"), var("$X"), var("$Y")]);
+        let sn = make_base_node(Rc::new(query), &kb);
+        std::thread::sleep(std::time::Duration::from_millis(1250));
+        let stopped = query_stopped();
+        let mut n = 0;
+        while let Some(_) = next_solution(Rc::clone(&sn)) { n += 1; if n > 10 { break; } }
+        if stopped || n != 4 { bad = Some(format!("1.25 s after the last query had reported (within its limit) the stop flag is {} and a query built before the pause finds {} of 4 answers: a timer outlived its query", stopped, n)); }
+        log.push_str(&format!(" | after a pause: flag {}, {} answers", stopped, n));
+    }
     // after everything: one more fast query with plain next_solution must be undisturbed (callback at "done")
     {
         let query = make_query(vec![atom("fast"), var("$X"), var("$Y")]);
